@@ -54,9 +54,14 @@ def many {α} (p : P α) : Nat → P (List α)
     let (as, ts) ← many p n ts
     pure (a :: as, ts)
 
-def counted {α} (p : P α) : P (List α) := fun ts => do
-  let (n, ts) ← nat ts
-  many p n ts
+/-- a counted list; the count token `n` marks a nil slice below the top level (read as empty: the
+    models do not distinguish nil from empty members, the code has to treat both alike) -/
+def counted {α} (p : P α) : P (List α) := fun ts =>
+  match ts with
+  | "n" :: ts => some ([], ts)
+  | _ => do
+    let (n, ts) ← nat ts
+    many p n ts
 
 def pts : P (List (Pt UInt64)) := counted pt
 def ptss : P (List (List (Pt UInt64))) := counted pts
@@ -85,6 +90,14 @@ partial def geom : P (Geom UInt64) := fun ts =>
         pure (g :: gs, ts)
     let (gs, ts) ← go n ts
     pure (.collection gs, ts)
+  -- typed nil slices as MEMBERS of a collection: the empty value of the kind
+  | "nMP" :: ts => some (.multiPoint [], ts)
+  | "nLS" :: ts => some (.lineString [], ts)
+  | "nMLS" :: ts => some (.multiLineString [], ts)
+  | "nR" :: ts => some (.ring [], ts)
+  | "nPG" :: ts => some (.polygon [], ts)
+  | "nMPG" :: ts => some (.multiPolygon [], ts)
+  | "nC" :: ts => some (.collection [], ts)
   | _ => none
 
 def gval : P (GVal UInt64) := fun ts =>
